@@ -700,6 +700,69 @@ def run_A(args, R):
                             break
             return intact
         explore(F0, [t1], t1 in extset)
+        if not sid.startswith('extra:'):
+            report(R, check_twins(sid, t1))
+            R.stats['A:twin_checks'] += 1
+
+
+def behaviour(F):
+    """What a user can observe of a formula besides its clauses: renderings
+    and names under other formats, in a fixed order."""
+    import io
+    obs = []
+    for name, f in (('to_latex', lambda: F.to_latex()),
+                    ('names[y_{}]', lambda: list(F.all_variable_labels(default_label_format='y_{}'))),
+                    ('names', lambda: list(F.all_variable_labels())),
+                    ('to_dimacs', lambda: F.to_dimacs()),
+                    ('to_file[opb,varnames]', lambda: _to_text(F, 'opb')),
+                    ('to_file[dimacs,varnames]', lambda: _to_text(F, 'dimacs'))):
+        try:
+            obs.append((name, f()))
+        except Exception as e:      # noqa: part of the observable behaviour
+            obs.append((name, '<%s>' % type(e).__name__))
+    return obs
+
+
+def _to_text(F, fmt):
+    import io
+    s = io.StringIO()
+    F.to_file(s, fileformat=fmt, export_header=False, export_varnames=True)
+    return s.getvalue()
+
+
+def check_twins(sid, tname):
+    """Differential oracle with no observation before the call (an observation
+    could itself fill a cache): two formulas built by the same recipe, one of
+    them passed through the transformation, must afterwards BEHAVE alike; and
+    the transformation of a formula that was rendered before must equal the
+    transformation of one that was not."""
+    starts = all_starts()
+    out = []
+    A, B = starts[sid](), starts[sid]()
+    if predicted_size(A, tname) > SIZE_LIMIT:
+        return out
+    GB, exc, _ = call(tname, B)
+    oa, ob = behaviour(A), behaviour(B)
+    for (na, va), (nb_, vb) in zip(oa, ob):
+        if va != vb:
+            out.append({'key': '%s:input-behaves-differently-after-the-call:%s' % (tname, na),
+                        'what': 'start %s: %s of the formula that was given to %s is %r, of an identical '
+                                'formula that was not: %r' % (sid, na, tname, str(vb)[:120], str(va)[:120]),
+                        'case': {'part': 'twin', 'start': sid, 't': tname}})
+            break
+    C = starts[sid]()
+    behaviour(C)                       # rendered and asked for its names first
+    GC, exc_c, _ = call(tname, C)
+    if exc is None and exc_c is None and GB is not None and GC is not None:
+        pb, pc = st.formula_public(GB), st.formula_public(GC)
+        for part in st.PUBLIC_PARTS:
+            if pb[part] != pc[part]:
+                out.append({'key': '%s:result-depends-on-earlier-observations-of-the-input:%s' % (tname, part),
+                            'what': 'start %s: %s of the result differs when the input was rendered before: '
+                                    '%s' % (sid, part, st.first_difference(pb[part], pc[part])),
+                            'case': {'part': 'twin', 'start': sid, 't': tname}})
+                break
+    return out
 
 
 def rebuild(sid, chain):
@@ -1450,6 +1513,8 @@ def replay(case):
         return check_long_chain(case)
     if part == 'A':
         return replay_A(case)
+    if part == 'twin':
+        return check_twins(case['start'], case['t'])
     if part == 'T':
         return check_texts(case)
     if part == 'G':
